@@ -47,6 +47,7 @@ struct FileSpec
     std::vector<CompSpec> comps;
     bool groupImports = false;
     bool hasLocalUnitsCycle = false;
+    bool noise = false; // extra content with parser errors that do not concern any importable entity ("benign noise")
     int findUnits(const std::string &n) const
     {
         for (size_t i = 0; i < units.size(); ++i) {
@@ -101,7 +102,9 @@ enum class Load
     GARBAGE, // not XML at all
     EMPTY, // zero bytes (also what reading a directory gives)
     NONCELLML, // well-formed XML with a foreign root element
-    CELLML11 // the same model in CellML 1.1 syntax
+    CELLML11, // the same model in CellML 1.1 syntax
+    NOISY20, // the same model plus unrelated content that makes the parser report errors
+    NOISY11 // CellML 1.1 syntax plus such content
 };
 
 struct FileVersion
@@ -121,6 +124,8 @@ struct FileVersion
         case Load::OK:
         case Load::NONCELLML:
         case Load::CELLML11:
+        case Load::NOISY20:
+        case Load::NOISY11:
             return true;
         case Load::TRUNCATED:
         case Load::READFAIL_THROW:
